@@ -526,12 +526,17 @@ def r6_bypass_flags_closed(run):
             verifying.append((nd, c))
         else:
             skipping.append((nd, c))
-    run.require(verifying, "parse_assertion: verifying decrypt_assertions call "
-                "vanished")
     main = [x for x in verifying
             if unparse(arg_of(x[1], 0)) == "resp.encrypted_assertion"]
-    run.require(main, "parse_assertion: verifying call on "
-                "resp.encrypted_assertion vanished")
+    if not main:
+        cands = [unparse(arg_of(c, 3, "verified")) for nd, c in skipping
+                 if unparse(arg_of(c, 0)) == "resp.encrypted_assertion"]
+        run.violated("R6", pa.qual + "::no-always-verifying-decrypt_assertions",
+                     "no decrypt_assertions(resp.encrypted_assertion, ...) call "
+                     "is left that always verifies signatures (verified is %s): "
+                     "the signature of a decrypted assertion can be skipped" %
+                     (cands or "absent"), pa.loc())
+        return
     mainid = main[0][0].id
     for nd, c in skipping:
         run.check(cfg.dominates(mainid, nd.id) and len(skipping) <= 1, "R6",
